@@ -856,7 +856,7 @@ def _gen_edit_v1(rng):
 
 SOUP = ["flow", "define", "user", "bot", "match", "send", "await", "(", ")", "\"", "\"\"\"", "$x", "=", "\n", "\n  ", "\n    ", "\n ",
         "if", "else", "when", "or", "and", "#", "\\", "\t", "...", "import", "a", "1", ":", ",", "[", "]", "{", "}", "é", "'", " ", "execute",
-        "\r\n", "  ", "@", "->", ".", "✓", "\u2028", "\x0c", "0", "flow a\n  b\n", " or", "!", "?", "%", "**", "as", "$", "\u00a0"]
+        "\r\n", "  ", "@", "->", ".", "✓", "(x=1, 2)", "\n  send Ev(x=1, $y)", "\u2028", "\x0c", "0", "flow a\n  b\n", " or", "!", "?", "%", "**", "as", "$", "\u00a0"]
 
 
 def mutate_text(rng, s):
